@@ -28,6 +28,8 @@ def rand_case(rng):
     case = dict(sequence=seq, spec=d, evaluated=s2)
     if d.get("location") and d["kind"] in ("pattern", "insert", "cds", "stop", "gcwin", "sequence") and rng.random() < 0.25:
         case["sibling"] = rng.choice(["keep", "change", "no_both", "insert_both"])
+    elif rng.random() < 0.2:
+        case["used_before"] = hard.rand_seq(rng, n)
     return case
 
 
@@ -104,6 +106,16 @@ def oracle_case(case, out):
             except Exception:
                 pass
             spec = spec.initialized_on_problem(stub, role=bspec.ROLE.get(d["kind"], "constraint"))
+        elif case.get("used_before"):
+            # the same object was part of an earlier problem on another sequence
+            stub = hard.Stub(seq)
+            obj = bspec.build(d)
+            try:
+                obj.initialized_on_problem(hard.Stub(case["used_before"]), role=bspec.ROLE.get(d["kind"], "constraint"))
+            except Exception:
+                pass
+            spec = obj.initialized_on_problem(stub, role=bspec.ROLE.get(d["kind"], "constraint"))
+            stub.constraints = [spec]
         else:
             spec, stub = bspec.init_spec(d, seq)
     except Exception:
